@@ -141,7 +141,11 @@ class GraphGen:
             out = outside or (self.p_outside > 0 and r.random() < self.p_outside)
             if out:
                 self.n_outside += 1
-            root = Path("/elsewhere/other") if out else self.audio_root
+            # outside roots include siblings whose *string* starts with the audio dir's string
+            # (containment is a matter of path components, not of string prefixes) and the parent
+            outside_roots = [Path("/elsewhere/other"), Path(str(self.audio_root) + "_backup"), Path(str(self.audio_root) + "2") / "x",
+                             self.audio_root.parent, self.audio_root.parent / "sibling"]
+            root = r.choice(outside_roots) if out else self.audio_root
             path = root / sub / f"{r.getrandbits(24):06x}_{name}"
             te = r.choice([1.0, 1.0, 10.0, 0.5, 2.5]) if self.opt() else 1.0
             return self.data.Recording(
